@@ -342,6 +342,8 @@ def reaching_defs(fn: ast.AST, names):
         if isinstance(node, (ast.Assign, ast.AnnAssign, ast.AugAssign)):
             if getattr(node, 'value', None) is not None:
                 val_nodes.append(node.value)
+            # names read inside a target (the base object of `x.f = ...` / `x[i] = ...`)
+            val_nodes.extend(node.targets if isinstance(node, ast.Assign) else [node.target])
         elif not isinstance(node, (ast.Return, ast.Raise)):
             val_nodes.append(node)
         for vn in val_nodes:
@@ -351,7 +353,7 @@ def reaching_defs(fn: ast.AST, names):
         if isinstance(node, ast.Assign):
             for t in node.targets:
                 for x in ast.walk(t):
-                    if isinstance(x, ast.Name) and x.id in names:
+                    if isinstance(x, ast.Name) and x.id in names and isinstance(x.ctx, ast.Store):
                         st[x.id] = reg(node.value)
         elif isinstance(node, ast.AnnAssign) and node.value is not None and isinstance(node.target, ast.Name) and node.target.id in names:
             st[node.target.id] = reg(node.value)
